@@ -105,7 +105,7 @@ class Frame:
     def live_env(self, at_bb, minus=None):
         """env restricted to locals live at the entry of `at_bb` (plus targets of live references)."""
         live = liveness(self.func).get(at_bb, set())
-        keep = {k: v for k, v in self.env.items() if k in live and k != minus and v is not None}
+        keep = {k: v for k, v in self.env.items() if (k in live or k.startswith("@")) and k != minus and v is not None}
         extra = {}
         for v in list(keep.values()):
             if isinstance(v, tuple) and v and v[0] == "REF" and v[1] in self.env and self.env[v[1]] is not None:
@@ -124,7 +124,7 @@ class Frame:
             live = set()
             for s2 in successors(term):
                 live |= liveness(self.func).get(s2, set())
-            keep = {k: v for k, v in self.env.items() if (k in live or k in mention) and v is not None}
+            keep = {k: v for k, v in self.env.items() if (k in live or k in mention or k.startswith("@")) and v is not None}
             for v in list(keep.values()):
                 if isinstance(v, tuple) and v and v[0] == "REF" and v[1] in self.env and self.env[v[1]] is not None:
                     keep[v[1]] = self.env[v[1]]
@@ -135,7 +135,7 @@ class Frame:
 class Config:
     """What the interpreter needs to know about one crate's protocol code."""
 
-    def __init__(self, funcs, consts, local_fn_resolver, atomic_loc_of=None, extra_visible=None, extra_pure=(), drop_hook=None):
+    def __init__(self, funcs, consts, local_fn_resolver, atomic_loc_of=None, extra_visible=None, extra_pure=(), drop_hook=None, extra_call=None):
         self.funcs = funcs
         self.consts = consts
         self.resolve_local = local_fn_resolver      # callee text -> Func or None
@@ -143,6 +143,7 @@ class Config:
         self.extra_visible = extra_visible or (lambda callee, args, frame, vals: None)
         self.extra_pure = tuple(extra_pure)
         self.drop_hook = drop_hook or (lambda v: None)
+        self.extra_call = extra_call or (lambda interp, callee, vals, fr, dst: False)   # pure, crate-specific callee semantics
 
 
 PURE_PASS_ARG0 = (
@@ -162,6 +163,9 @@ class Interp:
     def operand(self, fr, text):
         t = text.strip()
         if t.startswith("const "):
+            mp = re.search(r"::(promoted\[\d+\])$", t)
+            if mp:
+                return self.promoted(fr, mp.group(1))
             return self.const(t[6:].strip())
         m = re.match(r"^(copy|move) (.+)$", t)
         if m:
@@ -170,6 +174,16 @@ class Interp:
                 self.place_move_out(fr, m.group(2).strip())
             return v
         return self.place_read(fr, t)
+
+    def promoted(self, fr, which):
+        """value of the enclosing function's promoted constant (a reference to a constant aggregate)"""
+        fn = self.cfg.funcs.get(fr.func.name + "::" + which)
+        if fn is None or list(fn.blocks) != ["bb0"] or fn.blocks["bb0"].term[0] != "return;":
+            raise Unsupported("promoted constant %s of %s" % (which, fr.func.short()))
+        tmp = Frame(fn, {})
+        for (text, _) in fn.blocks["bb0"].stmts:
+            self.stmt(tmp, text)
+        return self.deref_alias(tmp, tmp.env.get("_0"))
 
     def const(self, c):
         if c in ("true", "false"):
@@ -191,9 +205,9 @@ class Interp:
 
     def place_read(self, fr, p):
         p = p.strip()
-        m = re.match(r"^\(\((_\d+) as (\w+)\)\.(\d+): .*\)$", p)
+        m = re.match(r"^\(\((.+) as (\w+)\)\.(\d+): .*\)$", p)
         if m:
-            v = self.deref_alias(fr, fr.env.get(m.group(1)))
+            v = self.deref_alias(fr, self.place_read(fr, m.group(1)))
             if isinstance(v, tuple) and v and v[0] == "ENUM":
                 if v[1] != m.group(2):
                     raise Unsupported("variant projection %s on %r" % (p, v))
@@ -211,12 +225,40 @@ class Interp:
             v = fr.env.get(m.group(1))
             if isinstance(v, tuple) and v and v[0] == "TUPLE":
                 return v[1 + int(m.group(2))]
+            if isinstance(v, tuple) and v and v[0] == "OBJ":
+                return self.obj_field(fr, v[1], m.group(2))
             return None
+        m = re.match(r"^\(\(\*(_\d+)\)\.(\d+): .*\)$", p)
+        if m:
+            v = self.deref_alias(fr, fr.env.get(m.group(1)))
+            if isinstance(v, tuple) and v and v[0] == "OBJ":
+                return self.obj_field(fr, v[1], m.group(2))
+            return None
+        return None
+
+    def obj_field(self, fr, name, idx):
+        """field of an endpoint object whose state lives in the entry frame of the operation ('@name.idx')"""
+        key = "@%s.%s" % (name, idx)
+        if key not in fr.env:
+            raise Unsupported("field %s of endpoint object accessed outside the wrapper that owns it (%s)" % (key, fr.func.short()))
+        return fr.env[key]
+
+    def field_ref(self, fr, p):
+        """('FIELDREF', name, idx) if place text p is a field of an endpoint object, else None"""
+        m = re.match(r"^\((?:\(\*(_\d+)\)|(_\d+))\.(\d+): .*\)$", p.strip())
+        if not m:
+            return None
+        v = self.deref_alias(fr, fr.env.get(m.group(1))) if m.group(1) else fr.env.get(m.group(2))
+        if isinstance(v, tuple) and v and v[0] == "OBJ":
+            self.obj_field(fr, v[1], m.group(3))
+            return ("FIELDREF", v[1], m.group(3))
         return None
 
     def deref_alias(self, fr, v):
         if isinstance(v, tuple) and v and v[0] == "REF":
             return fr.env.get(v[1])
+        if isinstance(v, tuple) and v and v[0] == "FIELDREF":
+            return self.obj_field(fr, v[1], v[2])
         return v
 
     def place_move_out(self, fr, p):
@@ -225,6 +267,26 @@ class Interp:
             v = fr.env.get(p.strip())
             if contains(v, lambda x: x == VALUE or is_waker(x)):
                 fr.env[p.strip()] = MOVED
+            return
+        # move out of a (nested) variant field rooted at a local: the token leaves the aggregate
+        path = []
+        q = p.strip()
+        while True:
+            m = re.match(r"^\(\((.+) as (\w+)\)\.(\d+): .*\)$", q)
+            if not m:
+                break
+            path.append(int(m.group(3)))
+            q = m.group(1)
+        m = re.match(r"^(_\d+)$", q)
+        if path and m and contains(fr.env.get(q), lambda x: x == VALUE or is_waker(x)):
+            def strip(v, idxs):
+                if not idxs:
+                    return MOVED
+                if not (isinstance(v, tuple) and v and v[0] == "ENUM"):
+                    return v
+                i = 2 + idxs[-1]
+                return v[:i] + (strip(v[i], idxs[:-1]),) + v[i + 1:]
+            fr.env[q] = strip(fr.env[q], path)
 
     # ----- statements ---------------------------------------------------------------------
     def assign(self, fr, dst, rv):
@@ -261,6 +323,12 @@ class Interp:
         if m:
             return fr.env.get(m.group(1))
         if rv.startswith("&"):
+            inner = re.sub(r"^&(?:mut |raw const |raw mut )?", "", rv)
+            fref = self.field_ref(fr, inner)
+            if fref is not None:
+                return fref
+            if re.match(r"^\(\((.+) as (\w+)\)\.(\d+): .*\)$", inner):
+                return self.place_read(fr, inner)        # reference to a variant payload: aliased by value
             return None
         m = re.match(r"^discriminant\((.+)\)$", rv)
         if m:
@@ -354,6 +422,9 @@ class Interp:
             # dropped them explicitly, so nothing to do.
             stack.pop()
             if not stack:
+                objs = {k: v for k, v in fr.env.items() if k.startswith("@")}
+                if objs:
+                    return ("RET", ("WITHOBJ", val, freeze(objs)))
                 return ("RET", val)
             caller = stack[-1]
             if fr.dst:
@@ -366,6 +437,8 @@ class Interp:
         if m:
             nxt = m.group(2) or m.group(3)
             v = self.place_read(fr, m.group(1))
+            if isinstance(v, tuple) and v and v[0] == "OBJ" or contains(v, lambda x: isinstance(x, tuple) and x and x[0] == "OBJ"):
+                raise Unsupported("drop of an endpoint object inside %s @%s (nested Drop impl not interpreted)" % (fr.func.short(), line))
             if contains(v, is_waker):
                 return ("VIS", stack, dict(kind="DROP_WAKER", line=line, next_bb=nxt, place=m.group(1)))
             if contains(v, lambda x: x == VALUE):
@@ -384,10 +457,26 @@ class Interp:
             if isinstance(v, int) and bool(v) == neg:
                 return ("PANIC", "assert failed in %s @%s" % (fr.func.short(), line))
             return self.goto(stack, m.group(2))
-        m = re.match(r"^(?:(.+?) = )?(.+?)\((.*)\) -> (?:\[return: (bb\d+), unwind[^\]]*\]|unwind [a-z]+|(bb\d+));$", term)
+        m = re.match(r"^(.*\)) -> (?:\[return: (bb\d+), unwind[^\]]*\]|unwind [a-z]+|(bb\d+));$", term)
         if m:
             # `-> [return: bbN, unwind ..]` = returning call; `-> unwind continue` / `-> bbN` = diverging call
-            dst, callee, args, ret_bb = m.group(1), m.group(2).strip(), m.group(3), m.group(4)
+            head, ret_bb = m.group(1), m.group(2)
+            # the argument list is the last balanced (...) group; the callee path may itself contain fn(..) types
+            depth, i = 0, len(head) - 1
+            while i >= 0:
+                if head[i] == ")":
+                    depth += 1
+                elif head[i] == "(":
+                    depth -= 1
+                    if depth == 0:
+                        break
+                i -= 1
+            if i <= 0:
+                raise Unsupported("terminator %r in %s" % (term, fr.func.short()))
+            args = head[i + 1:-1]
+            pre = head[:i]
+            md = re.match(r"^(_\d+|\(\*_\d+\)|\(.+?\)) = (.+)$", pre)
+            dst, callee = (md.group(1), md.group(2).strip()) if md else (None, pre.strip())
             return self.call(stack, dst.strip() if dst else None, callee, M.split_top(args) if args.strip() else [], ret_bb, line)
         raise Unsupported("terminator %r in %s" % (term, fr.func.short()))
 
@@ -453,6 +542,8 @@ class Interp:
             ev = dict(ev)
             ev.update(line=line, next_bb=ret_bb, dst=dst)
             return ("VIS", stack, ev)
+        if self.cfg.extra_call(self, callee, vals, fr, dst):
+            return self.goto(stack, ret_bb)
         fn = self.cfg.resolve_local(callee)
         if fn is not None:
             env = {}
